@@ -122,6 +122,13 @@ func (t *vTrace) Emit(ev map[string]any, do func()) {
 	}
 }
 
+// Flush pushes buffered events to the file (call it at run boundaries when the process may die).
+func (t *vTrace) Flush() {
+	t.mu.Lock()
+	defer t.mu.Unlock()
+	_ = t.w.Flush()
+}
+
 func (t *vTrace) Len() int {
 	t.mu.Lock()
 	defer t.mu.Unlock()
